@@ -49,3 +49,16 @@ func TestProbe(t *testing.T) {
 		fmt.Printf("%s\n   -> %s %v %.300s\n", q, hx.Canon(res.Data), res.Errors, res.Panic)
 	}
 }
+
+func TestProbeHang(t *testing.T) {
+	raw := os.Getenv("PROBE_RAW")
+	if raw == "" {
+		t.Skip()
+	}
+	fx := newFixture()
+	_, f := execGuarded(fx, raw)
+	if f != nil {
+		fmt.Println(f.Sig)
+		fmt.Println(f.Msg)
+	}
+}
